@@ -51,11 +51,53 @@ def add_twodel_queries(ds, rng, k):
     return ds
 
 
-def make_dataset(ds_seed, nq, nlab=200, twodel=0):
+def add_duplicate_contig(ds, rng):
+    """a third reference that is an exact copy of one of the others under another id (a duplicated contig): every query cut from it
+    ties exactly between two references, so the record shows which of two equal candidates the program keeps (the one on the reference
+    with the smaller id, whatever the order of the molecules in the file)"""
+    rid, rl, rp = rng.choice(ds['refs'])
+    used = {r[0] for r in ds['refs']}
+    new = rng.choice([i for i in range(1, 40) if i not in used])
+    ds['refs'] = sorted(ds['refs'] + [(new, rl, list(rp))])
+    ds['duplicate_of'] = {new: rid}
+    return ds
+
+
+def add_palindromes(ds, rng):
+    """a molecule that reads (almost) the same on both strands: label positions 1400*m_i + e_i with a palindromic sequence of bin
+    numbers m_i and small non-symmetric offsets e_i < 100, planted at the end of one reference; the query set gets the molecule as it is
+    and its mirror image.  The forward and the reverse candidate of such a query start from equal seeds (equal correlation vectors at both
+    resolutions) and differ only at base-pair level, so the record shows whether BOTH strands really compete"""
+    k = rng.randrange(len(ds['refs']))
+    rid, rl, rp = ds['refs'][k]
+    h = [rng.randint(2, 9) for _ in range(rng.randint(8, 12))]
+    gaps = h + h[::-1]
+    m = [0]
+    for g in gaps:
+        m.append(m[-1] + g)
+    e = [0] + [rng.randint(40, 99) for _ in range(len(m) - 2)] + [99]
+    mol = [1400 * a + b for a, b in zip(m, e)]
+    start = float(int(rp[-1]) + 60000 + rng.choice([0, 48, 700]))
+    planted = [start + x for x in mol]
+    tail = [planted[-1] + 60000.0 + 9000.0 * i for i in range(3)]
+    ds['refs'][k] = (rid, tail[-1] + 5000.0, list(rp) + planted + tail)
+    qid = max([q[0] for q in ds['queries']] + [0]) + 5
+    mirror = [mol[-1] - x for x in mol[::-1]]
+    ds['queries'].append((qid, mol[-1] + 60.0, [x + 20.0 for x in mol]))
+    ds['queries'].append((qid + 2, mol[-1] + 60.0, [x + 20.0 for x in mirror]))
+    ds['truth'][qid] = dict(kind='palindrome', ref=rid, rev=False, n=len(mol))
+    ds['truth'][qid + 2] = dict(kind='palindrome', ref=rid, rev=True, n=len(mol))
+    return ds
+
+
+def make_dataset(ds_seed, nq, nlab=200, twodel=0, dup=None):
     rng = random.Random(ds_seed)
     ds = e2e.gen_mixed(rng, nref=2, nlab=nlab, nq=nq)
     if twodel:
         add_twodel_queries(ds, random.Random(ds_seed + 1), twodel)
+    if dup if dup is not None else ds_seed % 2 == 0:
+        add_palindromes(ds, random.Random(ds_seed + 3))
+        add_duplicate_contig(ds, random.Random(ds_seed + 2))
     # coordinates on the 0.5 grid so that every float operation of the implementation is exact (see DESIGN.md section 3)
     ds['refs'] = [(i, half(l), [half(p) for p in ps]) for i, l, ps in ds['refs']]
     ds['queries'] = [(i, half(l), sorted(set(half(p) for p in ps))) for i, l, ps in ds['queries']]
